@@ -7,4 +7,4 @@ cd lean
 lake build driver $(ls RarenaVerif/Props/*.lean | sed 's|/|.|g; s|\.lean$||') 2>&1 | tail -3
 cd ../harness
 [ -f Cargo.lock ] || cp /repo/Cargo.lock Cargo.lock
-RUSTFLAGS="--cfg rarena_verif --check-cfg cfg(rarena_verif)" CARGO_NET_OFFLINE=true CARGO_TARGET_DIR=/verif/target cargo build --release --offline 2>&1 | tail -2
+RUSTFLAGS="--cfg rarena_verif --check-cfg cfg(rarena_verif)" CARGO_NET_OFFLINE=true CARGO_TARGET_DIR="$(cd .. && pwd)/target" cargo build --release --offline 2>&1 | tail -2
